@@ -91,6 +91,12 @@ def program(draw):
                 c['overrides'][pn + '_max'] = {'kind': 'limit'}
         if draw(st.booleans()):
             c['overrides']['cmd'] = {'kind': 'method'}
+        if draw(st.integers(0, 2)) == 0:
+            # the command with a struct argument, overridden by a plain method with other default arguments
+            c['overrides']['cmd2'] = {'kind': 'method2', 'defaults': draw(st.sampled_from(['a', 'ab', '']))}
+        if draw(st.integers(0, 2)) == 0:
+            # a module property overridden by a bare value (possibly on several levels of the chain)
+            c['overrides']['chan'] = {'kind': 'prop', 'value': draw(st.sampled_from([1, 2, 7]))}
         if draw(st.booleans()):
             T = draw(LEAF)
             c['new'].append({'name': f'n{name}', 'T': T, 'default': draw(specs.valid_value(T)), 'readonly': False})
@@ -171,7 +177,7 @@ class World:
         self.srv.secnode = None
 
     def define(self, name):
-        from frappy.core import Module, Readable, Parameter, Command
+        from frappy.core import Module, Readable, Parameter, Command, Property, StructOf, IntRange
         from frappy.params import Limit
         if name == 'Mix':
             attrs = {pn: self.make_override(o) for pn, o in self.prog['mixin']['overrides'].items()}
@@ -191,6 +197,12 @@ class World:
                 """root command"""
                 return None
             attrs['cmd'] = Command()(cmd)
+
+            def cmd2(self, a, b=1):
+                """root command with a struct argument"""
+                return None
+            attrs['cmd2'] = Command(StructOf(a=IntRange(0, 9), b=IntRange(0, 9)))(cmd2)
+            attrs['chan'] = Property('a module property', IntRange(0, 100), default=0)
             base = {'Module': Module, 'Readable': Readable}[c['base']]
             self.classes[name] = type(name, (base,), attrs)
             return
@@ -201,6 +213,13 @@ class World:
                     """overriding method"""
                     return None
                 attrs['cmd'] = cmd
+            elif o['kind'] == 'method2':
+                ns = {}
+                sig = {'a': 'a=0, b', 'ab': 'a=0, b=1', '': 'a, b'}[o['defaults']] if o['defaults'] != 'a' else 'b, a=0'
+                exec(f'def cmd2(self, {sig}):\n    "overriding method"\n    return None\n', ns)   # noqa
+                attrs['cmd2'] = ns['cmd2']
+            elif o['kind'] == 'prop':
+                attrs['chan'] = o['value']
             elif o['kind'] == 'limit':
                 attrs[pn] = Limit()
             else:
@@ -317,12 +336,17 @@ def snap_acc(aobj):
 def snap_class(cls):
     if not hasattr(cls, 'accessibles'):
         return {k: repr(v)[:80] for k, v in cls.__dict__.items() if not k.startswith('__')}
-    return {n: snap_acc(a) for n, a in cls.accessibles.items()}
+    res = {n: snap_acc(a) for n, a in cls.accessibles.items()}
+    po = getattr(cls, 'propertyDict', {}).get('chan')
+    if po is not None:
+        res['$chan'] = (repr(po.value), repr(po.default))
+    return res
 
 
 def snap_inst(inst):
     res = {n: snap_acc(a) + (repr(rm.canon(getattr(a, 'value', None))),) for n, a in inst.accessibles.items()}
     res['$props'] = json.dumps(inst.exportProperties(), sort_keys=True, default=repr)
+    res['$chan'] = repr(getattr(inst, 'chan', None))
     return res
 
 
